@@ -156,7 +156,7 @@ func vC04CaseFold(out *vC04Out, r *rand.Rand) {
 // CHist: one key; admission through one entry point, then hits on serving
 // routes while the clock is stepped towards and past the end of the lifetime.
 func vC04CaseHist(out *vC04Out, r *rand.Rand) {
-	ecsChoices := []time.Duration{0, 0, 8 * time.Second, 30 * time.Second, 600 * time.Second, 48 * time.Hour}
+	ecsChoices := []time.Duration{0, 0, 3 * time.Second, 8 * time.Second, 30 * time.Second, 600 * time.Second, 48 * time.Hour}
 	ecsMax := ecsChoices[r.Intn(len(ecsChoices))]
 	env := vC04NewEnv(0, ecsMax, 600)
 	defer env.close()
@@ -362,7 +362,9 @@ func vC04CaseHist(out *vC04Out, r *rand.Rand) {
 				} else {
 					ttl = -2
 				}
-				bounds = append(bounds, rep.bound)
+				if route != 2 || rep.fastWire {
+					bounds = append(bounds, rep.bound)
+				}
 			}
 		}
 		if ttl == -2 {
